@@ -44,6 +44,15 @@ FontsAx == {[ift |-> [compat |-> 1, tmpl |-> "A", entries |-> <<E({}, {}, s1, {}
 DefsAx == {[cps |-> {0}, feats |-> {}, ds |-> s, fall |-> FALSE, dall |-> a] :
              s \in SegsAx \cup {{<<1, 3, 0>>, <<1, 3, 1>>}, {<<5, 6, 0>>, <<0, 0, 1>>}, {<<2, 2, 1>>}}, a \in BOOLEAN}
 
+\* string ids (the table carries id string data; an entry without a length field repeats the id of the entry before it,
+\* the first one the empty string): three entries with ids over {<<>>, <<1>>, <<1, 2>>, <<255>>}, the same URI may occur twice
+SidSet == {<<>>, <<1>>, <<1, 2>>, <<255>>}
+FontsSid == {[ift |-> [compat |-> 1, tmpl |-> "A", entries |-> <<E({0}, {}, {}, {}, FALSE, i1, "glyph", a), E(c, {}, {}, {}, FALSE, FALSE, m, b),
+                                                                 E({1}, {}, {}, k, FALSE, FALSE, m, d)>>],
+              iftx |-> NoT] : a \in SidSet, b \in SidSet, d \in SidSet, c \in {{}, {1}}, i1 \in BOOLEAN, m \in {"glyph", "part"}, k \in {{}, {2}}}
+FontsSidOk == {f \in FontsSid : \A x, y \in 1..3 : f.ift.entries[x].id = f.ift.entries[y].id => f.ift.entries[x].fmt = f.ift.entries[y].fmt}
+DefsSid == {[cps |-> c, feats |-> {}, ds |-> {}, fall |-> FALSE, dall |-> FALSE] : c \in {{}, {0}, {1}, {0, 1}}}
+
 \* invalidating entries sharing URIs inside one table (three entries, sizes 1..3, ids 1..2), optionally
 \* mirrored in IFTX: exercises de-duplication together with the largest-intersection rule
 P3(c, n, m) == E(c, {}, {}, {}, FALSE, FALSE, m, n)
